@@ -22,6 +22,11 @@ def R(quick, thorough):
 
 def std_runs(profiles, nq=120, nt=1500, extra_feats=('nofin', 'noweak', 'noauto', 'bare')):
     quick = [('full', False, profiles, nq)]
+    # a small sample of the other build configurations on every run: changes guarded by
+    # cfg(not(feature = ...)) or visible only without debug assertions must not wait for the thorough tier
+    for f in extra_feats[:2]:
+        quick.append((f, False, profiles, max(8, nq // 5)))
+    quick.append(('full', True, profiles, max(8, nq // 5)))
     thorough = [('full', False, profiles, nt), ('full', True, profiles, nt // 2)]
     for f in extra_feats:
         thorough.append((f, False, profiles, nt // 4))
